@@ -59,6 +59,13 @@ CHECKS = {
                      'discharged by z3 for every value within the stated numbers of timers/iterations',
                 note='trusted: z3/pathex; the clock/Event doubles and their contracts (non-decreasing clock constant within an iteration, '
                      'wait(t) returns within t); datetime deadlines and Sleep outside'),
+    'C10': dict(engine='pathex', technique=TECH, ref='DESIGN.md 4/C10',
+                text='bounded symbolic execution of the real Select/Poll/EPoll registration and event code on a stub kernel over all '
+                     'histories of addReader/addWriter/removeReader/removeWriter/discard/close/re-open (descriptor number reuse) and '
+                     'poll iterations with chosen readiness up to the stated length: the _read/_write events and their target channel '
+                     'equal the set model, the kernel table mirrors the interest sets, closed descriptors get no readiness events',
+                note='trusted: z3/pathex and the stub kernel (Linux select/poll/epoll registration semantics, validated against the real '
+                     'kernel on fixed histories by tools/validate_stubkernel.py); hang-up bits and KQueue outside'),
     'C11': dict(engine='pathex', technique=TECH, ref='DESIGN.md 4/C11',
                 text='bounded symbolic execution of the real write/close paths of Server, Client and File with the outcome of every '
                      'send()/os.write() as a solver variable (accept k of n bytes with k a z3 Int, or raise a transient/fatal errno) '
